@@ -22,7 +22,7 @@ segment of its name -/
 theorem rType_firstWord {t : TypeA} (hw : t.wf = true) (l : Layout) (x : List Char)
     (hx : t.endsOpen = true → hdP (fun c => !isIdentChar c) x = true) :
     ∃ w rest, (rType t l).1 ++ x = w ++ rest ∧ (∀ c ∈ w, isIdentChar c = true) ∧
-      hdP (fun c => !isIdentChar c) rest = true ∧ (w ∈ typeWords ∨ t.headIs w = true) := by
+      hdP (fun c => !isIdentChar c) rest = true ∧ (w ∈ typeWords ∨ t.headIs w = true) ∧ w ≠ [] := by
   obtain ⟨ty, as⟩ := t
   simp only [TypeA.wf, Bool.and_eq_true] at hw
   simp only [rType, rSeq_fst, List.append_assoc]
@@ -39,16 +39,16 @@ theorem rType_firstWord {t : TypeA} (hw : t.wf = true) (l : Layout) (x : List Ch
   | path p =>
     simp only [Ty.wf, Bool.and_eq_true] at hw
     obtain ⟨s, rest, hs, hhead, e, hrest⟩ := rPath_cons hw.1.1 l
-    refine ⟨s, rest ++ ((rOptAnns as (rTy (.path p) l).2).1 ++ x), ?_, identOk_all hs, hrest _ (hafter rfl), Or.inr ?_⟩
+    refine ⟨s, rest ++ ((rOptAnns as (rTy (.path p) l).2).1 ++ x), ?_, identOk_all hs, hrest _ (hafter rfl), Or.inr ?_, ident_ne_nil hs⟩
     · simp only [rTy]; rw [e, List.append_assoc]
     · simp [TypeA.headIs, hhead]
   | list v c =>
     simp only [rTy, rSeq_fst, rSeq_snd, rLit_fst, rLit_snd, List.append_assoc]
-    refine ⟨cs!"list", _, rfl, by decide, ?_, Or.inl (by decide)⟩
+    refine ⟨cs!"list", _, rfl, by decide, ?_, Or.inl (by decide), by simp⟩
     · exact ((rB0_BT _).sep_append (Or.inr (by show isSepChar '<' = true; decide))).noIdent
   | set v c =>
     simp only [rTy, rSeq_fst, rSeq_snd, rLit_fst, rLit_snd, List.append_assoc]
-    refine ⟨cs!"set", _, rfl, by decide, ?_, Or.inl (by decide)⟩
+    refine ⟨cs!"set", _, rfl, by decide, ?_, Or.inl (by decide), by simp⟩
     · cases c with
       | none =>
         simp only [rCppOpt, rLit_fst, rLit_snd, List.nil_append]
@@ -58,7 +58,7 @@ theorem rType_firstWord {t : TypeA} (hw : t.wf = true) (l : Layout) (x : List Ch
         exact ((rB1_BT _).sep_append (Or.inl (rB1_ne _))).noIdent
   | map k v c =>
     simp only [rTy, rSeq_fst, rSeq_snd, rLit_fst, rLit_snd, List.append_assoc]
-    refine ⟨cs!"map", _, rfl, by decide, ?_, Or.inl (by decide)⟩
+    refine ⟨cs!"map", _, rfl, by decide, ?_, Or.inl (by decide), by simp⟩
     · cases c with
       | none =>
         simp only [rCppOpt, rLit_fst, rLit_snd, List.nil_append]
@@ -66,17 +66,17 @@ theorem rType_firstWord {t : TypeA} (hw : t.wf = true) (l : Layout) (x : List Ch
       | some lit =>
         simp only [rCppOpt, rSeq_fst, rLit_fst, List.append_assoc]
         exact ((rB1_BT _).sep_append (Or.inl (rB1_ne _))).noIdent
-  | string => simp only [rTy, rLit_fst]; exact ⟨cs!"string", _, rfl, by decide, hafter rfl, Or.inl (by decide)⟩
-  | void => simp only [rTy, rLit_fst]; exact ⟨cs!"void", _, rfl, by decide, hafter rfl, Or.inl (by decide)⟩
-  | byte => simp only [rTy, rLit_fst]; exact ⟨cs!"byte", _, rfl, by decide, hafter rfl, Or.inl (by decide)⟩
-  | bool => simp only [rTy, rLit_fst]; exact ⟨cs!"bool", _, rfl, by decide, hafter rfl, Or.inl (by decide)⟩
-  | binary => simp only [rTy, rLit_fst]; exact ⟨cs!"binary", _, rfl, by decide, hafter rfl, Or.inl (by decide)⟩
-  | i8 => simp only [rTy, rLit_fst]; exact ⟨cs!"i8", _, rfl, by decide, hafter rfl, Or.inl (by decide)⟩
-  | i16 => simp only [rTy, rLit_fst]; exact ⟨cs!"i16", _, rfl, by decide, hafter rfl, Or.inl (by decide)⟩
-  | i32 => simp only [rTy, rLit_fst]; exact ⟨cs!"i32", _, rfl, by decide, hafter rfl, Or.inl (by decide)⟩
-  | i64 => simp only [rTy, rLit_fst]; exact ⟨cs!"i64", _, rfl, by decide, hafter rfl, Or.inl (by decide)⟩
-  | double => simp only [rTy, rLit_fst]; exact ⟨cs!"double", _, rfl, by decide, hafter rfl, Or.inl (by decide)⟩
-  | uuid => simp only [rTy, rLit_fst]; exact ⟨cs!"uuid", _, rfl, by decide, hafter rfl, Or.inl (by decide)⟩
+  | string => simp only [rTy, rLit_fst]; exact ⟨cs!"string", _, rfl, by decide, hafter rfl, Or.inl (by decide), by simp⟩
+  | void => simp only [rTy, rLit_fst]; exact ⟨cs!"void", _, rfl, by decide, hafter rfl, Or.inl (by decide), by simp⟩
+  | byte => simp only [rTy, rLit_fst]; exact ⟨cs!"byte", _, rfl, by decide, hafter rfl, Or.inl (by decide), by simp⟩
+  | bool => simp only [rTy, rLit_fst]; exact ⟨cs!"bool", _, rfl, by decide, hafter rfl, Or.inl (by decide), by simp⟩
+  | binary => simp only [rTy, rLit_fst]; exact ⟨cs!"binary", _, rfl, by decide, hafter rfl, Or.inl (by decide), by simp⟩
+  | i8 => simp only [rTy, rLit_fst]; exact ⟨cs!"i8", _, rfl, by decide, hafter rfl, Or.inl (by decide), by simp⟩
+  | i16 => simp only [rTy, rLit_fst]; exact ⟨cs!"i16", _, rfl, by decide, hafter rfl, Or.inl (by decide), by simp⟩
+  | i32 => simp only [rTy, rLit_fst]; exact ⟨cs!"i32", _, rfl, by decide, hafter rfl, Or.inl (by decide), by simp⟩
+  | i64 => simp only [rTy, rLit_fst]; exact ⟨cs!"i64", _, rfl, by decide, hafter rfl, Or.inl (by decide), by simp⟩
+  | double => simp only [rTy, rLit_fst]; exact ⟨cs!"double", _, rfl, by decide, hafter rfl, Or.inl (by decide), by simp⟩
+  | uuid => simp only [rTy, rLit_fst]; exact ⟨cs!"uuid", _, rfl, by decide, hafter rfl, Or.inl (by decide), by simp⟩
 
 /-- a keyword that is neither a type word nor the head of the type's name is not read at the
 start of a rendered type, provided its continuation fails on a word character -/
@@ -85,7 +85,7 @@ theorem kwArm_type_err {β} {kw : List Char} {k : P β} {t : TypeA} (hw : t.wf =
     (hk : ∀ c ∈ kw, isIdentChar c = true) (h1 : kw ∉ typeWords) (h2 : t.headIs kw = false)
     (hfail : ∀ c y, isIdentChar c = true → k (c :: y) = .err) :
     andThen (tag kw) (fun _ => k) ((rType t l).1 ++ x) = .err := by
-  obtain ⟨w, rest, e, hw', hrest, hor⟩ := rType_firstWord hw l x hx
+  obtain ⟨w, rest, e, hw', hrest, hor, _⟩ := rType_firstWord hw l x hx
   rw [e]
   apply wordArm_err' hk hw' hrest ?_ hfail
   intro heq; subst heq
@@ -407,26 +407,12 @@ theorem function_step {d : Nat} {f : Function} (hok : FnOk d f) (last : Bool) (l
     obtain ⟨g, hg, hlen, hm⟩ := main l bl hbl
     refine ⟨g, hg, ?_, ?_⟩
     · have : 0 < (rType rt l).1.length := by
-        have := hnbT l []
+        obtain ⟨w, rest, e, _, _, _, hwne⟩ := rType_firstWord hrt l [] (fun _ => rfl)
         cases h : (rType rt l).1 with
         | nil =>
-          exfalso
-          obtain ⟨w, rest, e, hw', _, hor⟩ := rType_firstWord hrt l [] (fun _ => rfl)
           rw [h] at e
           cases w with
-          | nil =>
-            rcases hor with h1 | h1
-            · revert h1; decide
-            · cases rt with
-              | mk ty as =>
-                cases ty <;> simp [TypeA.headIs] at h1
-                rename_i p
-                simp only [TypeA.wf, Ty.wf, Path.wf, Bool.and_eq_true, Bool.not_eq_true', List.all_eq_true] at hrt
-                have := hrt.1.1.2 [] (by
-                  cases hp : p.segments with
-                  | nil => rw [hp] at hrt; simp at hrt
-                  | cons s ss => simp [Path.head, hp] at h1; subst h1; simp)
-                simp [identOk] at this
+          | nil => exact absurd rfl hwne
           | cons c cs => simp at e
         | cons _ _ => simp
       simp only [List.length_append] at hlen ⊢
@@ -457,5 +443,171 @@ theorem function_step {d : Nat} {f : Function} (hok : FnOk d f) (last : Bool) (l
       unfold Function.parse
       rw [andThen_of_ok (hone _ (hnbT _ _))]
       exact hm
+
+/-! ### services -/
+
+def Service.depth (s : Service) : Nat := (s.functions.map Function.depth).foldl max 0 + 1
+def Service.supported (s : Service) : Bool := s.functions.all Function.supported
+
+theorem identChar_props {c : Char} (h : isIdentChar c = true) :
+    (!(c == ',' || c == ';')) = true ∧ (c != '(') = true := by
+  have h1 := identChar_ne h (x := ',') (by decide)
+  have h2 := identChar_ne h (x := ';') (by decide)
+  have h3 := identChar_ne h (x := '(') (by decide)
+  refine ⟨?_, ?_⟩
+  · simp [Ne.symm h1, Ne.symm h2]
+  · simp [Ne.symm h3]
+
+theorem fnFollow_function {d : Nat} {f : Function} (hok : FnOk d f) (last : Bool) (l : Layout) (x : List Char) :
+    FnFollow d ((rFunction f last l).1 ++ x) := by
+  obtain ⟨hw, _, _⟩ := hok
+  obtain ⟨name, oneway, rt, args, throws, anns⟩ := f
+  simp only [Function.wf, Bool.and_eq_true, Bool.or_eq_true, Bool.not_eq_true'] at hw
+  obtain ⟨⟨⟨⟨⟨⟨⟨hname, hrt⟩, hcpp⟩, how⟩, hth⟩, _⟩, _⟩, han⟩ := hw
+  rw [rFunction_throws]
+  simp only [rSeq_fst, rSeq_snd, rLit_fst, rLit_snd, List.append_assoc]
+  cases oneway with
+  | true =>
+    simp only [if_true, rSeq_fst, rLit_fst, List.append_assoc]
+    exact ⟨by rw [NB]; rfl, by rw [NoSepStart]; rfl, by rfl, throwsP_err_hd d (by rfl)⟩
+  | false =>
+    simp only [Bool.false_eq_true, if_false, rLit_fst, rLit_snd, List.nil_append]
+    have hx : rt.endsOpen = true → hdP (fun c => !isIdentChar c) ((rB1 (rType rt l).2).1 ++ (name ++ ((rB0 (rB1 (rType rt l).2).2).1 ++
+        (['('] ++ ((rB0 (rB0 (rB1 (rType rt l).2).2).2).1 ++ ((rSlots (rField true) args (rB0 (rB0 (rB1 (rType rt l).2).2).2).2).1 ++
+          ([')'] ++ ((rThrows throws (rSlots (rField true) args (rB0 (rB0 (rB1 (rType rt l).2).2).2).2).2).1 ++
+            ((rOptAnns anns (rThrows throws (rSlots (rField true) args (rB0 (rB0 (rB1 (rType rt l).2).2).2).2).2).2).1 ++
+              ((rDefTail anns false last (rOptAnns anns (rThrows throws (rSlots (rField true) args
+                (rB0 (rB0 (rB1 (rType rt l).2).2).2).2).2).2).2).1 ++ x)))))))))) = true :=
+      fun _ => ((rB1_BT _).sep_append (Or.inl (rB1_ne _))).noIdent
+    have hthr := kwArm_type_err (kw := cs!"throws") (k := andThen (opt blank) fun _ => andThen (tag ['(']) fun _ =>
+        andThen (many1 (skip (opt blank) (Field.parse d))) fun fields => andThen (opt blank) fun _ =>
+        andThen (tag [')']) fun _ => ret fields) hrt l _ hx (by decide) (by decide) hth
+      (fun c y hc => throws_cont_fail d hc)
+    obtain ⟨w, rest, e, hw', _, _, hwne⟩ := rType_firstWord hrt l _ hx
+    rw [e] at hthr ⊢
+    cases w with
+    | nil => exact absurd rfl hwne
+    | cons c cs =>
+      have hc := hw' c (by simp)
+      exact ⟨identChar_NB hc, (identChar_props hc).1, (identChar_props hc).2, hthr⟩
+
+theorem ty_close_err (d : Nat) (R : List Char) : typeParse (Ty.parse (d + 1)) ('}' :: R) = .err := by
+  unfold typeParse
+  apply andThen_of_err
+  unfold Ty.parse
+  rw [alt_cons_of_err (kw_err_of (by simp [stripPrefix])), alt_cons_of_err (kw_err_of (by simp [stripPrefix])),
+    alt_cons_of_err (kw_err_of (by simp [stripPrefix])), alt_cons_of_err (kw_err_of (by simp [stripPrefix])),
+    alt_cons_of_err (kw_err_of (by simp [stripPrefix])), alt_cons_of_err (kw_err_of (by simp [stripPrefix])),
+    alt_cons_of_err (kw_err_of (by simp [stripPrefix])), alt_cons_of_err (kw_err_of (by simp [stripPrefix])),
+    alt_cons_of_err (kw_err_of (by simp [stripPrefix])), alt_cons_of_err (kw_err_of (by simp [stripPrefix])),
+    alt_cons_of_err (kw_err_of (by simp [stripPrefix])),
+    alt_cons_of_err (andThen_of_err (tag_err_of (by simp [stripPrefix]))),
+    alt_cons_of_err (andThen_of_err (tag_err_of (by simp [stripPrefix]))),
+    alt_cons_of_err (andThen_of_err (tag_err_of (by simp [stripPrefix]))),
+    alt_cons_of_err (pmap_of_err (path_err_hd (by rw [hdP_cons]; decide) (by simp)))]
+  rfl
+
+theorem function_close_err (d : Nat) {bl R : List Char} (hbl : BT bl) :
+    skip (opt blank) (Function.parse (d + 1)) (bl ++ '}' :: R) = .err := by
+  rw [skip_of_ok (optBlank_rt hbl (by rw [NB, hdP_cons]; decide))]
+  unfold Function.parse Type.parse
+  have h1 : pmap (fun (o : Option Unit) => o.isSome) (opt (andThen (tag cs!"oneway") fun _ => blank)) ('}' :: R) =
+      .ok false ('}' :: R) := pmap_of_ok (opt_of_err (andThen_of_err (tag_cons_ne (by decide))))
+  rw [andThen_of_ok h1]
+  exact andThen_of_err (ty_close_err d R)
+
+/-- `opt(tuple((blank, tag("extends"), blank, Path::parse)))` as rendered -/
+def rExt : Option Path → R
+  | none => rLit []
+  | some p => rB1 +> rLit cs!"extends" +> rB1 +> rPath p
+
+theorem ext_rt {α} (K : Option Path → P α) {ext : Option Path} (hw : (match ext with | none => true | some p => p.wf) = true)
+    (l : Layout) {b X : List Char} (hb : BT b) :
+    (andThen (opt (andThen blank fun _ => andThen (tag cs!"extends") fun _ => andThen blank fun _ => Path.parse)) fun e =>
+      andThen (opt blank) fun _ => andThen (tag ['{']) fun _ => K e) ((rExt ext l).1 ++ (b ++ (['{'] ++ X))) = K ext X := by
+  cases ext with
+  | none =>
+    simp only [rExt, rLit_fst, List.nil_append]
+    have hnone : (andThen blank fun _ => andThen (tag cs!"extends") fun _ => andThen blank fun _ => Path.parse)
+        (b ++ (['{'] ++ X)) = .err := by
+      by_cases hne : b = []
+      · subst hne; exact andThen_of_err (blank_err (by rw [List.nil_append, NB]; rfl))
+      · rw [andThen_blank hb hne (by rw [NB]; rfl)]; exact andThen_of_err (tag_cons_ne (by decide))
+    rw [andThen_of_ok (opt_of_err hnone), andThen_optBlank hb (by rw [NB]; rfl), andThen_of_ok (tag_append _ _)]
+  | some p =>
+    simp only [rExt, rSeq_fst, rSeq_snd, rLit_fst, rLit_snd, List.append_assoc]
+    obtain ⟨s, rest, hs, _, e, _⟩ := rPath_cons hw (rB1 (rB1 l).2).2
+    have hnbp : ∀ x, NB ((rPath p (rB1 (rB1 l).2).2).1 ++ x) := by
+      intro x; rw [e, List.append_assoc]; exact ident_NB hs
+    have hsome : (andThen blank fun _ => andThen (tag cs!"extends") fun _ => andThen blank fun _ => Path.parse)
+        ((rB1 l).1 ++ (cs!"extends" ++ ((rB1 (rB1 l).2).1 ++ ((rPath p (rB1 (rB1 l).2).2).1 ++ (b ++ (['{'] ++ X)))))) =
+        .ok p (b ++ (['{'] ++ X)) := by
+      rw [andThen_blank (rB1_BT _) (rB1_ne _) (by rw [NB]; rfl), andThen_of_ok (tag_append _ _),
+        andThen_blank (rB1_BT _) (rB1_ne _) (hnbp _)]
+      exact path_rt hw _ (hb.sep_append (Or.inr (by rw [Sep]; rfl))).noIdent
+        (pathStop_of hb (by rw [NB]; rfl) (by rfl))
+    rw [andThen_of_ok (opt_of_ok hsome), andThen_optBlank hb (by rw [NB]; rfl), andThen_of_ok (tag_append _ _)]
+
+theorem rService_ext (s : Service) (last : Bool) (l : Layout) :
+    rService s last l = (rLit cs!"service" +> rB1 +> rLit s.name +> rExt s.ext +>
+      rB0 +> rLit ['{'] +> rB0 +> rSlots rFunction s.functions +> rLit ['}'] +>
+      rOptAnns s.annotations +> rDefTail s.annotations false last) l := by
+  cases h : s.ext <;> simp [rService, rExt, h]
+
+/-- `service_rt` -/
+theorem service_rt {s : Service} (hw : s.wf = true) (hsup : s.supported = true) {d : Nat} (hd : s.depth < d)
+    (last : Bool) (l : Layout) {R : List Char} (hR : ItemStart R) :
+    ∃ g, BT g ∧ Service.parse d ((rService s last l).1 ++ R) = .ok s (g ++ R) := by
+  obtain ⟨name, ext, fns, anns⟩ := s
+  simp only [Service.wf, Bool.and_eq_true, List.all_eq_true] at hw
+  obtain ⟨⟨⟨hname, hext⟩, hfns⟩, han⟩ := hw
+  simp only [Service.supported, List.all_eq_true] at hsup
+  simp only [Service.depth] at hd
+  obtain ⟨d', rfl⟩ : ∃ d', d = d' + 1 := ⟨d - 1, by omega⟩
+  have hall : ∀ f ∈ fns, FnOk (d' + 1) f := fun f hf =>
+    ⟨hfns f hf, hsup f hf, by have := (foldl_max_le (fns.map Function.depth) 0).2 _ (List.mem_map_of_mem hf); omega⟩
+  rw [rService_ext]
+  simp only [rSeq_fst, rSeq_snd, rLit_fst, rLit_snd, List.append_assoc]
+  have hloop := many0F_slots (skip (opt blank) (Function.parse (d' + 1))) rFunction Eq (FnOk (d' + 1)) BT
+    (fun R => FnFollow (d' + 1) R) '}'
+    (by
+      intro x last l bl R hx hbl hlast hmid
+      have hR : FnFollow (d' + 1) R := by
+        cases last with
+        | true => obtain ⟨R'', rfl⟩ := hlast rfl; exact fnFollow_close _ R''
+        | false => exact hmid rfl
+      obtain ⟨g, hg, hlen, h⟩ := function_step hx last l hbl hR
+      exact ⟨x, g, rfl, hg, hlen, h⟩)
+    (by intro y last l R hy; exact fnFollow_function hy last l R)
+    (by intro bl R hbl; exact function_close_err d' hbl)
+  obtain ⟨ys, bl', hys, hbl', hm⟩ := hloop fns (rB0 (rB0 (rExt ext (rB1 l).2).2).2).2 (rB0 (rB0 (rExt ext (rB1 l).2).2).2).1 _
+    ((rOptAnns anns (rSlots rFunction fns (rB0 (rB0 (rExt ext (rB1 l).2).2).2).2).2).1 ++
+      ((rDefTail anns false last (rOptAnns anns (rSlots rFunction fns (rB0 (rB0 (rExt ext (rB1 l).2).2).2).2).2).2).1 ++ R))
+    hall (rB0_BT _) (Nat.lt_succ_self _)
+  have hys' := forall2_eq' hys
+  subst hys'
+  obtain ⟨g, ann, hg, hann, htail⟩ := defTail_rt (fun anns' => ret (Service.mk name ext fns (anns'.getD [])))
+    han false last (rSlots rFunction fns (rB0 (rB0 (rExt ext (rB1 l).2).2).2).2).2 hR.nb hR.noSep (hR.ne '(' (by decide))
+  refine ⟨g, hg, ?_⟩
+  have hm' : many0 (skip (opt blank) (Function.parse (d' + 1))) ((rB0 (rB0 (rExt ext (rB1 l).2).2).2).1 ++
+      ((rSlots rFunction fns (rB0 (rB0 (rExt ext (rB1 l).2).2).2).2).1 ++ (['}'] ++
+        ((rOptAnns anns (rSlots rFunction fns (rB0 (rB0 (rExt ext (rB1 l).2).2).2).2).2).1 ++
+          ((rDefTail anns false last (rOptAnns anns (rSlots rFunction fns (rB0 (rB0 (rExt ext (rB1 l).2).2).2).2).2).2).1 ++ R))))) =
+      .ok fns (bl' ++ (['}'] ++ ((rOptAnns anns (rSlots rFunction fns (rB0 (rB0 (rExt ext (rB1 l).2).2).2).2).2).1 ++
+          ((rDefTail anns false last (rOptAnns anns (rSlots rFunction fns (rB0 (rB0 (rExt ext (rB1 l).2).2).2).2).2).2).1 ++ R)))) := hm
+  have hnameFollow : ∀ x, hdP (fun c => !isIdentChar c) ((rExt ext (rB1 l).2).1 ++ ((rB0 (rExt ext (rB1 l).2).2).1 ++ (['{'] ++ x))) = true := by
+    intro x
+    cases ext with
+    | none =>
+      simp only [rExt, rLit_fst, rLit_snd, List.nil_append]
+      exact ((rB0_BT _).sep_append (Or.inr (by rw [Sep]; rfl))).noIdent
+    | some p =>
+      simp only [rExt, rSeq_fst, List.append_assoc]
+      exact ((rB1_BT _).sep_append (Or.inl (rB1_ne _))).noIdent
+  unfold Service.parse
+  rw [andThen_of_ok (tag_append _ _), andThen_blank (rB1_BT _) (rB1_ne _) (ident_NB hname),
+    andThen_of_ok (ident_rt hname (hnameFollow _)), ext_rt _ hext _ (rB0_BT _), andThen_of_ok hm',
+    andThen_optBlank hbl' (by rw [NB]; rfl), andThen_of_ok (tag_append _ _), htail, hann]
+  rfl
 
 end Pilota.Idl
